@@ -822,6 +822,9 @@ def _native_material(law, dim):
         return H.SaintVenantKirchhoff(dim, lmbda=1.5, mu=0.75, K=0.25)
     if law == "HolzapfelOgden":
         return H.HolzapfelOgden(dim, 0.5, 1.2, 0.4, 1.1, 0.3, 0.9, 0.2, 0.7, 2.0, 0.6, 0.3, np.array([1.0, 0.0, 0.0]), np.array([0.0, 1.0, 0.0]), ks=5.0)
+    if law == "HolzapfelOgden.oblique":
+        # orthogonal unit fibre / sheet directions leaving every coordinate plane (in 2-D: a fibre with an out-of-plane component in a plane-strain body)
+        return H.HolzapfelOgden(dim, 0.5, 1.2, 0.4, 1.1, 0.3, 0.9, 0.2, 0.7, 2.0, 0.6, 0.3, np.array([1.0, 2.0, 2.0]) / 3, np.array([2.0, 1.0, -2.0]) / 3, ks=5.0)
     if law == "AutoDiff":
         from EasyFEA.Models import _autodiff
         _autodiff.Enable_x64()
@@ -1089,6 +1092,53 @@ def ob_native_law(law, dim, seed):
     return Verdict(DISCHARGED, backend="native run, Richardson finite differences", detail=f"S {r['stress_err']:.1e} T {r['tangent_err']:.1e}")
 
 
+def ob_adaptive_fields():
+    """the adaptive (energy-tolerance) path quadrature with a law carrying per-element / per-Gauss-point data (Holzapfel-Ogden with fibre FIELDS) on a step during which only part
+    of the body moves (elements are accepted at different refinement levels): the operator returns, and its residual satisfies the discrete-gradient identity
+    R_e.(u_n+1 - u_n) == integral of W_n+1 - W_n within the tolerance."""
+    import contextlib, io
+    from EasyFEA import ElemType, Models
+    from EasyFEA.Geoms import Domain
+    from EasyFEA.FEM import FeArray
+    from EasyFEA.FEM._utils import MatrixType
+    from EasyFEA.FEM.Operators import NonLinear
+    from EasyFEA.Models.HyperElastic import HyperElasticState
+    HO = dict(C0=1.0, C1=2.0, C2=3.0, C3=2.0, C4=1.5, C5=1.0, C6=4.0, C7=3.0, K=50.0, Mu1=0.5, Mu2=0.25, ks=20.0)
+    with contextlib.redirect_stdout(io.StringIO()):
+        mesh = Domain((0, 0), (1, 1), 0.5).Mesh_Extrude([], [0, 0, 1], [2], ElemType.HEXA8, isOrganised=True)
+    g = mesh.groupElem
+    Ne, nPg = g.Ne, np.asarray(g.Get_weightedJacobian_e_pg(MatrixType.rigi)).shape[1]
+    ang = np.linspace(-1, 1, Ne)[:, None] * np.ones((1, nPg))
+    z = np.zeros_like(ang)
+    T1 = FeArray.asfearray(np.stack([np.cos(ang), np.sin(ang), z], -1))
+    T2 = FeArray.asfearray(np.stack([-np.sin(ang), np.cos(ang), z], -1))
+    rng = np.random.default_rng(0)
+    u_n = rng.normal(0, 0.03, mesh.Nn * 3)
+    u_1 = u_n.copy()
+    nodes = mesh.Nodes_Conditions(lambda x, y, z: x > 0.6)
+    dofs = (nodes[:, None] * 3 + np.arange(3)).ravel()
+    u_1[dofs] += rng.normal(0, 0.05, dofs.size)
+    S = lambda u: HyperElasticState(g, u, MatrixType.rigi)
+    mat = Models.HyperElastic.HolzapfelOgden(3, T1=T1, T2=T2, **HO)
+    try:
+        K, R, npts = NonLinear.TimeQuadratureStressTensor(mat, S(u_n), S(0.5 * (u_n + u_1)), S(u_1), 0.5, 3, tol=1e-8)
+    except Exception as ex:
+        ref = Models.HyperElastic.HolzapfelOgden(3, T1=np.array([1.0, 0, 0]), T2=np.array([0, 1.0, 0]), **HO)
+        _, _, npts = NonLinear.TimeQuadratureStressTensor(ref, S(u_n), S(0.5 * (u_n + u_1)), S(u_1), 0.5, 3, tol=1e-8)
+        raise Refuted(f"TimeQuadratureStressTensor(tol=1e-8) with Holzapfel-Ogden fibre fields (Ne, nPg, 3) raises {type(ex).__name__}: {str(ex)[:140]} as soon as elements are accepted at different "
+                      f"levels (points per element with uniform fibres: {np.asarray(npts).tolist()}): the state is restricted to the elements still refining, the law's fields are not",
+                      cex=dict(law="HolzapfelOgden", fibres="(Ne, nPg, 3) fields", tol=1e-8), signature="adaptive:fields", replay=dict(confirmed=True))
+    rows = np.asarray(g.Get_assembly_e(3))
+    wJ = np.asarray(g.Get_weightedJacobian_e_pg(MatrixType.rigi))
+    dW = np.asarray(mat.Compute_W(S(u_1))) - np.asarray(mat.Compute_W(S(u_n)))
+    work = np.einsum("ei,ei->e", np.asarray(R), (u_1 - u_n)[rows])
+    want = (wJ * dW).sum(1)
+    e = float(np.abs(work - want).max() / np.abs(want).max())
+    if e > 1e-6:
+        raise Refuted(f"adaptive path quadrature with fibre fields: R_e.(u_n+1 - u_n) differs from the integral of W_n+1 - W_n by {e:.2e} (relative)", signature="adaptive:fields:energy", replay=dict(confirmed=True, err=e))
+    return Verdict(DISCHARGED, backend="native run", detail=f"points per element {np.asarray(npts).tolist()}, energy defect {e:.1e}")
+
+
 def ob_native_operator(kind, et, law):
     """full tangent of the real operator with a genuinely nonlinear law vs central differences of its residual."""
     from EasyFEA.FEM._utils import MatrixType
@@ -1206,11 +1256,13 @@ def build(tier, seed):
         for et in ("TRI3", "QUAD4", "TETRA4"):
             obs.append(Ob(f"C18.energy.{kind}.{et}", ob_energy, (kind, et, seed), "B", (f"{NL}::{_opname(kind)}",), bound=f"2-element {et} patch, one seeded pair of end states",
                           clause="R_e.(u_n+1 - u_n) == integral of W_n+1 - W_n", timeout=1800))
-    for law in LAW_NAMES + ["AutoDiff"]:
+    for law in LAW_NAMES + ["AutoDiff", "HolzapfelOgden.oblique"]:
         for dim in (2, 3):
             for s in range(3 if thorough else 1):
-                obs.append(Ob(f"C18.native.law.{law}.{dim}d.s{s}", ob_native_law, (law, dim, seed + s), "X", (f"{LAWS}::{law}",), bound="one seeded deformation state (16 / 16 Gauss points)",
+                obs.append(Ob(f"C18.native.law.{law}.{dim}d.s{s}", ob_native_law, (law, dim, seed + s), "X", (f"{LAWS}::{law.split('.')[0]}",), bound="one seeded deformation state (16 / 16 Gauss points)",
                               clause="stress / tangent vs finite differences; objectivity; reference state", timeout=1800))
+    obs.append(Ob("C18.native.operator.quadrature.adaptive.fields", ob_adaptive_fields, (), "X", (f"{NL}::__AdaptiveTimeQuadratureStressTensor", f"{LAWS}::HolzapfelOgden"), bound="one 8-element block, one step",
+                  clause="adaptive path quadrature with per-element law data: returns, and satisfies the discrete-gradient identity", timeout=600))
     for kind in ("pointwise", "gonzalez", "quadrature"):
         for law in ("NeoHookean", "MooneyRivlin") + (("CiarletGeymonat", "HolzapfelOgden") if thorough else ()):
             for et in ("QUAD4",) + (("TETRA4",) if thorough or law == "NeoHookean" else ()):
